@@ -22,6 +22,7 @@ struct G {
   int where[MAXP][MAXN] = {};
   int started = 0, consumed = 0;
   std::vector<int> log;  // consumption order: p*16+i
+  std::string evs;       // debug: order of harness events
   bool final_cleanup = false;
   CircularBuffer<struct Elem> *buf = nullptr;
   size_t cap = 0;
@@ -63,7 +64,7 @@ void take_all(CircularBuffer<Elem> &buf, size_t n, std::vector<std::unique_ptr<E
       g->where[e->p][e->i] = TAKEN;
       g->consumed++;
       g->log.push_back(e->p * 16 + e->i);
-      vfs::note("take", e->p, e->i);
+      vfs::note("take", e->p, e->i); g->evs += vf::sfmt("t%d ", e->p);
       taken.push_back(std::move(e));
       return true;
     });
@@ -116,11 +117,12 @@ void run(vf::Ctx &c) {
           std::unique_ptr<Elem> e(new Elem(p, i));
           int c0 = gg.consumed;
           gg.started++;
-          vfs::note("add-call", p, i);
+          vfs::note("add-call", p, i); gg.evs += vf::sfmt("c%d ", p);
           bool ok = (i % 2 == 0) ? buf.Add(e) : buf.Add(std::move(e));
-          vfs::note("add-ret", p * 16 + i, ok);
+          vfs::note("add-ret", p * 16 + i, ok); gg.evs += vf::sfmt("r%d%s ", p, ok ? "" : "F");
           result[p][i] = ok;
           if (!ok) {
+            vfs::ctx().counted("failed_adds");
             int others_started = gg.started - 1;
             if (others_started - c0 < cfg.cap)
               vfs::fail("C11:spurious-full", vf::sfmt("Add(%d,%d) failed although only %d other adds had started and %d elements had been consumed before it began (capacity %d)",
@@ -172,6 +174,7 @@ void run(vf::Ctx &c) {
     }
     if (buf.size() != 0) vfs::fail("C11:size", "buffer not empty after the final drain");
     c.outcome(vf::sfmt("%d.%d.%d.%d:", cfg.cap, cfg.P, cfg.n, cfg.cons) + outcome);
+    if (getenv("VF_C11_DEBUG")) { FILE *f = fopen("/tmp/c11_evs.txt", "a"); fprintf(f, "%s\n", gg.evs.c_str()); fclose(f); }
     c.sample(vf::sfmt("capacity=%d producers=%d adds=%d consumer=%d results/where=%s", cfg.cap, cfg.P, cfg.n, cfg.cons, outcome.c_str()));
     gg.final_cleanup = true;
     taken.clear();
